@@ -397,6 +397,8 @@ pub struct Known {
     pub classes: Vec<String>,
     /// all of these substrings must occur in the site
     pub site_all: Vec<String>,
+    /// if non-empty: the site must be one of these exactly (the specific failing inputs)
+    pub sites: Vec<String>,
     pub what: String,
     pub fixed: bool,
 }
@@ -414,6 +416,7 @@ pub fn load_known(path: &str) -> Vec<Known> {
             properties: e["properties"].as_array().into_iter().flatten().filter_map(|x| x.as_str().map(|s| s.to_string())).collect(),
             classes: e["classes"].as_array().into_iter().flatten().filter_map(|x| x.as_str().map(|s| s.to_string())).chain(e["class"].as_str().map(|s| s.to_string())).collect(),
             site_all: e["site_all"].as_array().into_iter().flatten().filter_map(|x| x.as_str().map(|s| s.to_string())).collect(),
+            sites: e["sites"].as_array().into_iter().flatten().filter_map(|x| x.as_str().map(|s| s.to_string())).collect(),
             what: e["what"].as_str().unwrap_or("").to_string(),
             fixed: e["status"].as_str() == Some("fixed"),
         });
@@ -422,7 +425,7 @@ pub fn load_known(path: &str) -> Vec<Known> {
 }
 
 pub fn match_known<'a>(known: &'a [Known], property: &str, class: &str, site: &str) -> Option<&'a Known> {
-    known.iter().find(|k| !k.fixed && k.properties.iter().any(|p| p == property) && k.classes.iter().any(|c| c == class) && k.site_all.iter().all(|s| site.contains(s.as_str())))
+    known.iter().find(|k| !k.fixed && k.properties.iter().any(|p| p == property) && k.classes.iter().any(|c| c == class) && k.site_all.iter().all(|s| site.contains(s.as_str())) && (k.sites.is_empty() || k.sites.iter().any(|s| s == site)))
 }
 
 // ------------------------------------------------------------------ check = families for one property
@@ -523,6 +526,12 @@ pub fn run_check(property: &'static str, fams: &[&dyn Family], tier: Tier, verif
                 let e = known_hits.entry(k.id.clone()).or_insert((k.what.clone(), 0));
                 e.1 += 1;
                 fam_known += 1;
+                if let Ok(path) = std::env::var("GOMLMC_DUMP_KNOWN") {
+                    use std::io::Write;
+                    if let Ok(mut fh) = std::fs::OpenOptions::new().create(true).append(true).open(path) {
+                        let _ = writeln!(fh, "{}", json!({"id": k.id, "property": property, "class": class, "site": site}));
+                    }
+                }
             } else {
                 violations.push((class, site, fam.name().to_string(), f.clone()));
                 fam_viol += 1;
